@@ -17,6 +17,10 @@ pub const FLOW_C2: [&str; 14] = ["X", "a", "Y", "!X", "s", "a <= 3", "!a", "a ==
 
 pub fn flow_templates() -> Vec<&'static str> {
     vec![
+        "{P} if ({C2}) r = 2; else r = 3;",
+        "for (c = 0; c < 2; c++) { {P} if ({C2}) r++; }",
+        "{P} r = ({C2}) ? 2 : 3;",
+        "{P} while ({C2}) { r++; break; }",
         "{P} if ({C1}) r = 1; else if ({C2}) r = 2;",
         "{P} if ({C1}) r = 1; else { if ({C2}) r = 2; else r = 3; }",
         "{P} if ({C1}) r = 1; if ({C2}) r = 2;",
@@ -42,12 +46,16 @@ pub fn f2_flow(tier: Tier) -> Vec<SemCase> {
     let ps: Vec<&str> = if quick { FLOW_PREFIX[..8].to_vec() } else { FLOW_PREFIX.to_vec() };
     let c1s: Vec<&str> = if quick { FLOW_C1[..4].to_vec() } else { FLOW_C1.to_vec() };
     let c2s: Vec<&str> = if quick { FLOW_C2[..6].to_vec() } else { FLOW_C2.to_vec() };
-    let decls: Vec<&str> = if quick { vec![D0_TEXT] } else { vec![D0_TEXT, D0S_TEXT] };
+    let decls: Vec<&str> = vec![D0_TEXT, D0S_TEXT];
     let small: Vec<(&str, &[i32])> = vec![("a", &[0, 1, 3, 0x80, 0xff]), ("b", &[0, 1, 2, 3, 0xff]), ("c", &[0, 1, 4]), ("r", &[0, 9]), ("X", &[0, 1, 2, 3]), ("Y", &[0, 1, 3]), ("s", &[0, 1, 0x100, 0x101, 0xffff])];
     let mut v = Vec::new();
     for d in &decls {
         for t in flow_templates() {
             for p in &ps {
+                if quick && *d == D0S_TEXT && *p != "a = 5;" {
+                    // quick: the signed declarations only with the constant assignment
+                    continue;
+                }
                 for c1 in &c1s {
                     if !t.contains("{C1}") && *c1 != c1s[0] {
                         continue;
@@ -153,6 +161,79 @@ pub fn f1_nest() -> Vec<SemCase> {
     for d in [D0_TEXT, D0S_TEXT] {
         for b in bodies {
             v.push(case_from_text("F1.nest", &main_with(d, b), &small, vec!["nest"], 400));
+        }
+    }
+    v
+}
+
+/// pointers: assignment from arrays, increments, dereference, indexing by Y, copies, address-of, 16-bit views
+pub fn f6_ptr() -> Vec<SemCase> {
+    let bodies = [
+        "p = arr; r = p[Y];",
+        "p = arr; r = *p;",
+        "p = arr; p++; r = *p;",
+        "p = arr; p++; p++; r = p[Y];",
+        "p = arr; ++p; r = *p;",
+        "p = arr; p++; p--; r = *p;",
+        "p = arr; p += 2; r = *p;",
+        "p = arr; p += a; r = *p;",
+        "p = arr; *p = a; r = arr[0];",
+        "p = arr; p[Y] = a; r = arr[Y];",
+        "p = arr; p[Y]++; r = arr[Y];",
+        "p = arr; p[Y] += b; r = arr[Y];",
+        "p = arr; *p = *p + 1; r = arr[0];",
+        "p = tab; r = p[Y];",
+        "p = tab; p++; r = *p;",
+        "p = arr; q = p; q++; r = *q; c = *p;",
+        "p = arr; q = p; r = q[Y];",
+        "p = &a; *p = 5; r = a;",
+        "p = &b; r = *p;",
+        "p = arr; if (*p) r = 1; else r = 2;",
+        "p = arr; if (p[Y] == 0x7f) r = 1; else r = 2;",
+        "p = arr; r = 0; while (*p != 0x7f) { p++; r++; }",
+        "p = arr; r = 0; for (Y = 0; Y != 4; Y++) { if (p[Y] & 0x80) r++; }",
+        "p = arr; s = p; p = s; r = *p;",
+        "p = arr; r = p >> 8; c = p;",
+        "p = arr; q = arr; if (p == q) r = 1; else r = 2;",
+        "p = arr; q = arr; q++; if (p != q) r = 1; else r = 2;",
+        "p = arr; X = p[Y];",
+        "p = arr; Y = 1; X = p[Y]; Y = p[Y];",
+        "p = arr; a = p[Y] + 1;",
+        "p = arr; a = p[Y] & b;",
+        "p = arr; a = b + p[Y];",
+        "p = arr; a = p[Y]; b = p[Y];",
+        "p = arr; p[Y] = p[Y] << 1; r = arr[Y];",
+        "p = arr; arr[1] = 9; Y = 1; r = p[Y];",
+        "p = arr; Y = 0; *p = 3; p++; *p = 4; r = arr[0] + arr[1];",
+        "p = arr; fp(p); r = c;",
+        "p = arr; r = gp(p);",
+        "p = arr; r = gp(p) + 1; c = *p;",
+        "p = arr; p++; r = gp(p);",
+    ];
+    let small: Vec<(&str, &[i32])> = vec![("Y", &[0, 1, 2, 3]), ("a", &[0, 1, 2, 0x80, 0xff]), ("b", &[0, 1, 0x7f, 0xff])];
+    let extra = "char *q;\nvoid fp(char *v) { c = v[Y]; }\nchar gp(char *v) { return v[Y]; }\n";
+    let mut v = Vec::new();
+    for d in [D0_TEXT, D0S_TEXT] {
+        for b in bodies {
+            let src = format!("{}{}void main()\n{{\n{}\n}}\n", d, extra, b);
+            v.push(case_from_text("F6.ptr", &src, &small, vec!["ptr"], 400));
+        }
+    }
+    v
+}
+
+/// an operation that leaves a carry, then ++/-- (or += 1), then a comparison of the same object with 0 or 1
+pub fn f2_carry() -> Vec<SemCase> {
+    let small: Vec<(&str, &[i32])> = vec![("a", &[0, 1, 2, 7, 0x80, 0xff]), ("b", &[0, 1, 2, 7, 0xff]), ("c", &[0]), ("r", &[0]), ("X", &[0, 1]), ("s", &[0, 1, 0xff, 0x100, 0x7fff, 0xffff])];
+    let mut v = Vec::new();
+    for pre in ["c = a - b;", "c = b - a;", "c = a + b;", "c = a << 1;", "if (a < b) c = 1;", ""] {
+        for inc in ["++b;", "b++;", "--b;", "b--;", "arr[X]++;", "arr[X]--;", "s++;", "s--;", "b += 1;", "b -= 1;"] {
+            let obj = if inc.contains("arr") { "arr[X]" } else if inc.contains('s') { "s" } else { "b" };
+            for test in ["{} > 0", "{} <= 0", "{} >= 1", "{} == 0", "{} < 1", "{} != 0", "{}"] {
+                let t = test.replace("{}", obj);
+                let body = format!("{} {} if ({}) r = 1; else r = 2;", pre, inc, t);
+                v.push(case_from_text("F2.carry", &main_with(D0_TEXT, &body), &small, vec!["carry"], 400));
+            }
         }
     }
     v
